@@ -80,8 +80,8 @@ func (ct *CronTrigger) NextFireTime(prev int64) (int64, error) {
 	prevTime := time.Unix(prev/int64(time.Second), 0).In(ct.location)
 	// build a CronStateMachine and run once
 	csm := newCSMFromFields(prevTime, ct.fields)
-	nextDateTime := csm.NextTriggerTime(prevTime.Location())
-	if nextDateTime.Before(prevTime) || nextDateTime.Equal(prevTime) {
+	nextDateTime, ok := csm.NextTriggerTime(prevTime.Location())
+	if !ok || nextDateTime.Before(prevTime) || nextDateTime.Equal(prevTime) {
 		return 0, ErrTriggerExpired
 	}
 	return nextDateTime.UnixNano(), nil
